@@ -3,7 +3,7 @@
    positive stay the Coq datatypes.  No Extract Constant directive is used. *)
 Require Extraction.
 Require Import ExtrOcamlBasic.
-From XtModel Require Import Base InputModel Utf8 UtfModel TranscodeModel FidelityModel ChunkerModel FormatsModel IoModel DetectModel CliModel MsgpackModel.
+From XtModel Require Import Base InputModel Utf8 UtfModel TranscodeModel FidelityModel ChunkerModel MemModel FormatsModel IoModel DetectModel CliModel MsgpackModel.
 
 Extraction Language OCaml.
 Extraction "model.ml"
@@ -15,4 +15,5 @@ Extraction "model.ml"
   parse_args resolve_from extension_format run_cli
   detect_format start
   chunker
+  mrun m0 mclean read_handler
   next_value_size transcode_slice transcode_reader mm_output mm_ok msgpack_matches DEPTH_LIMIT.
